@@ -6,6 +6,8 @@ TECH = "contract-based deductive verification: VCs generated from the typed Go A
 claims = {
  "C03": ("frame obligation 'deterministic' over every function reachable from the obfuscation pipeline (no global randomness, clock or map iteration order can reach the output) plus SMT determinism (self-composition) of the name hash",
          "necessary conditions: the Go toolchain's own determinism, process scheduling and the seeding in transformCompile are outside; ten map-order sites are listed known findings; three order assumptions are listed in trusted_base"),
+ "C04": ("contracts on the reverse pipeline: reverseContent streams every line read, in order, through the replacer and writes exactly the replaced lines (ghost stream history, loop invariant); the exit status is success iff some line changed; the trees reverse inspects are the listed files in listed order with the source on disk as a prefix (parseFiles / transformerForListedPackage / reflectMainPrePatch); build and reverse both hash call positions under fmt.Sprintf(\"%s:%d\", base name, offset) with the package being processed",
+         "the agreement of offsets rests on go/printer + go/scanner emitting identifiers in Preorder order (position.go's own assumption), which is not proved; that strings.Replacer does the longest-first replacement the pair order intends is assumed; one known finding (cgo packages: reverse keys use build-cache paths)"),
  "C05": ("contracts on the encoder/decoder building blocks: evalOperator against a bit-vector spec, the reversed operator emitted with the same operands, the lemma that the reversed operator undoes the encoder for all bytes, index type wide enough for every position, even swap count covering the data, random index/operator ranges, obfuscator selection window",
          "necessary conditions only: the round trip of each of the five obfuscators through the emitted loops and closures needs a semantics of emitted Go statements, which is not built; a labelled bounded stand-in (real code executed on generated programs) may accompany the check but is never counted as proved"),
  "C06": ("functional contracts of the cache key ingredients: addGarbleToHash / appendFlags hash every build-affecting garble input (spec from the statement), cache IDs use distinct suffixes, linker stamp written == stamp checked",
@@ -20,6 +22,8 @@ claims = {
          "necessary conditions only: that the emitted dispatcher, phi handling and instruction translation preserve behaviour is outside (no semantics of emitted statements); the dropped recover block is a listed known finding; one obligation about successor arrays is listed as unproved_not_claimed"),
  "C12": ("functional contracts of salt selection (hash input pinned as a term), determinism by self-composition: seeded names depend only on seed, import path and name; unseeded on the garble action ID; field names on struct shape and garble inputs; appendFlags/addGarbleToHash/seedFlag.Set",
          "SHA-256 and base64 are assumed contracts; 'differs under another seed' needs injectivity of SHA-256 and is not claimed"),
+ "C13": ("decision-table contract on obfuscatedObjectName (the single naming function): which objects keep their names, fields hashed with their struct, everything else hashed with the package go list reports for the object's own import path; garble map calls it with the transformer built for the package it lists and reports that package's obfuscatedImportPath; garble reverse covers every declaration kind whose names map lists (frame obligation on its type switch)",
+         "that transformGoFile (the build) consults the same function for every identifier is checked only as a call-graph fact, not per identifier; objectpath keys are x/tools' and assumed"),
  "C14": ("decision contract at the point where ToObfuscate is recorded (spec written from the statement), no-match error, guard dominance of import path / package name functions",
          "only the decision and the naming functions; behaviour of the mixed program is outside; hashed source dir for plain packages is a listed known finding"),
  "C15": ("frame obligation on the struct case of the type hasher (may call only NumFields/Field/Anonymous/Name/hashString) and determinism of hashWithStruct in (struct hash, field name, garble inputs)",
